@@ -38,7 +38,7 @@ FLAVOURS = {
              ["-O1", "-g", "-DSIM_TSAN"], ["-fsanitize=thread", NEW_WRAP]),
     "selfchk": ("g++", ["-O1", "-g1", "-D_GLIBCXX_ASSERTIONS", "-ftrivial-auto-var-init=pattern",
                         "-DBSPLINE_ADD_TEST_CHECKS", "-DSIM_SELFCHK"], None, []),
-    "vg": ("g++", ["-O1", "-g", "-DSIM_VG"], None, []),
+    "vg": ("g++", ["-O1", "-g", "-DSIM_VG"], None, [NEW_WRAP]),
 }
 
 
